@@ -76,6 +76,63 @@ def lzss_corr(ctx, mr, rng, n):
             ctx.diff('corr', 'lzss-model', case, model[:80], impl[:80], 'LZSS decoder: Coq model and decompress_code differ')
 
 
+def lv4_bound_corr(ctx, mr, rng, n):
+    """the extracted block loop of the level-4 read (Model/IvfcBound.v, bounded by the file for every claimed size) vs IVFCLevel4Reader.read
+    on hand-made trees whose level-4 size field claims up to 2^63 bytes: which blocks are fetched, and what comes back"""
+    import hashlib
+    import io
+    from ..core import zhex
+    from pyctr.type.save.partdesc.ivfc import IVFCHashTree, IVFCLevel4Reader, IVFC
+    from pyctr.type.save.partdesc.common import LevelData
+    for _ in range(n):
+        log = rng.choice([5, 6, 7, 9])
+        bs = 1 << log
+        data = pyenv.rbytes(rng, rng.choice([0, 1, bs - 1, bs, bs + 1, 3 * bs, 3 * bs + 7, rng.randrange(0, 6 * bs)]))
+        claimed = rng.choice([len(data), len(data) + 1, len(data) + bs, 2 * len(data) + 5 * bs, 1 << 20, 1 << 22])
+        levels = [None, None, None, data]
+        bss = [4096, 4096, 4096, bs]          # single-block hash levels: no walk up the tree runs off a table
+        for li in (2, 1, 0):
+            below, bsb = levels[li + 1], bss[li + 1]
+            levels[li] = b''.join(hashlib.sha256(below[i:i + bsb].ljust(bsb, b'\0')).digest() for i in range(0, max(len(below), 1), bsb))
+        master = [hashlib.sha256(levels[0].ljust(4096, b'\0')).digest()]
+        offs, fp = [], b''
+        for li in range(4):
+            offs.append(len(fp))
+            fp += levels[li] + b'\0' * ((-len(levels[li])) % 16)
+        fp = fp[:offs[3] + len(data)]              # the file ends where the level-4 data ends
+        ivfc = IVFC(master_hash_size=0x20, lv1=LevelData(offs[0], len(levels[0]), 12, 4096), lv2=LevelData(offs[1], len(levels[1]), 12, 4096),
+                    lv3=LevelData(offs[2], len(levels[2]), 12, 4096), lv4=LevelData(offs[3], claimed, log, bs), descriptor_size=0x78)
+        tree = IVFCHashTree(io.BytesIO(fp), ivfc, list(master))
+        fetched = []
+        orig = tree.get_block
+
+        def spy(level, block, **kw):
+            r = orig(level, block, **kw)
+            if level == 4:
+                fetched.append(len(r[0]))
+            return r
+        tree.get_block = spy
+        rd = IVFCLevel4Reader(tree, verify=False)
+        reqs = [(rng.choice([0, 1, bs, len(data), rng.randrange(0, max(1, len(data) + 2))]), rng.choice([-1, -1, 1, bs, 10 * bs, 1 << 19])) for _ in range(3)]
+        impl = []
+        for p_, n_ in reqs:
+            del fetched[:]
+            try:
+                rd.seek(p_)
+                out = rd.read(n_)
+                impl.append(','.join(str(x) for x in fetched if x) or '-')
+            except Exception as ex:
+                impl.append('e:' + pyenv.errname(ex))
+        case = dict(lv4bound=True, bs=bs, have=len(data), claimed=claimed, reqs=reqs)
+        ctx.case(case)
+        # the implementation clamps an absolute seek to the claimed size; the model is asked at the position the reader really had
+        line = 'lv4bound ' + hx(data) + ' ' + zhex(bs) + ' ' + zhex(claimed) + ' ' + ' '.join(zhex(min(p_, claimed)) + ',' + zhex(n_) for p_, n_ in reqs)
+        model = mr.ask(line).split(' ')
+        ctx.stat('lv4_bound_corr')
+        if model != impl:
+            ctx.diff('corr', 'lv4bound-model', case, str(model)[:120], str(impl)[:120], 'level-4 block loop: Coq model and IVFCLevel4Reader.read fetch different blocks')
+
+
 def run_tasks(ctx, tasks, workers=12):
     pool = SBX.Pool(n=workers)
     worst = dict(cpu=0.0, rss=0)
@@ -106,10 +163,11 @@ def gen(ctx, rng, budget, exhaustive=False):
 
 
 def run(ctx):
-    proof = prove('C19', [], ['C19_props'], static_deps=['Proofs/RomfsProofs.v', 'Proofs/LzssProofs.v'])
+    proof = prove('C19', [], ['C19_props'], static_deps=['Proofs/RomfsProofs.v', 'Proofs/LzssProofs.v', 'Proofs/IvfcBoundProofs.v'])
     mr = ModelRunner()
     try:
         lzss_corr(ctx, mr, ctx.rng, ctx.n(150, 3000))
+        lv4_bound_corr(ctx, mr, ctx.rng, ctx.n(120, 2000))
     finally:
         mr.close()
     run_tasks(ctx, gen(ctx, ctx.rng, ctx.n(1500, 60000), exhaustive=(ctx.tier == 'thorough')))
@@ -148,6 +206,9 @@ def replay(ctx, path):
             return 0
         finally:
             mr.close()
+    if case.get('lv4bound'):
+        print('level-4 bound correspondence case: re-run the check with the same seed')
+        return 2
     if case.get('data') is None:
         print('input too large to be stored; re-run the check with the same seed')
         return 2
